@@ -37,11 +37,26 @@
 
 /* ---------------- readProcessingInstruction / readDoctype ---------------- */
 #define OTHER_PRE XML_TAG_PRE(self)
-#define DECL_readOther(sym, POST) TOKEN_SIG(sym) __CPROVER_requires(OTHER_PRE) __CPROVER_assigns(TOKEN_FRAMELIST) POST ;
-/* O1 invariants; O2 the token: kind, slices inside the input, bookkeeping; O3 failure <=> error flag, nothing counted */
+/* readDoctype counts '[' in an `int`: it cannot overflow for inputs of fewer than 2^31 bytes. This bound is PART OF THE PRECONDITION of readDoctype
+ * (and therefore of next(), unit xml_next); with the general 2^40 bound the obligation "signed overflow in ++bracket" fails (observation X-DT, NOTES.md) */
+#define XML_DOCTYPE_IN_BITS 31
+#define DOCTYPE_PRE (XML_TAG_PRE(self) && XML_SMALL(self->_input.n, XML_DOCTYPE_IN_BITS))
+#define DECL_readPI(sym, POST) TOKEN_SIG(sym) __CPROVER_requires(OTHER_PRE) __CPROVER_assigns(TOKEN_FRAMELIST) POST ;
+#define DECL_readDoctype(sym, POST) TOKEN_SIG(sym) __CPROVER_requires(DOCTYPE_PRE) __CPROVER_assigns(TOKEN_FRAMELIST) POST ;
+/* O1 invariants; O3 failure <=> error flag, nothing counted; O2 the token: kind, slices inside the input, bookkeeping, at least one byte consumed */
 #define OTHER_SAFE ENS(XML_CUR_INV(self) && self->_cur >= OC && XML_TAG_INV(self)) ENS(!RV ==> self->_producedTokens == OLD(self->_producedTokens)) ERR_IFF_FALSE
 #define OTHER_TOKEN(KIND) ENS(RV ==> (TOK.kind == KIND && XML_SLICE_IN(self, TOK.name) && XML_SLICE_IN(self, TOK.text) && TOK.name.n <= self->_opt.maxNameLength && TOK.attributes.n == 0 \
        && TOK.depth == self->_depth && TOK.offset == startOffset && self->_producedTokens == OLD(self->_producedTokens) + 1 && self->_cur > OC))
+#define XML_TEXT_OFF ((size_t)__CPROVER_POINTER_OFFSET(TOK.text.p))
+/* P1 the PI has a target (1..maxNameLength bytes) and its content is the input range that ends where the FIRST "?>" behind the target begins;
+ * the cursor ends right behind that "?>" */
+#define PI_SLICE ENS(RV ==> (TOK.name.n >= 1 && self->_cur >= OC + 3 && __CPROVER_same_object(TOK.text.p, self->_input.p) && XML_TEXT_OFF >= OC + TOK.name.n \
+       && XML_TEXT_OFF + TOK.text.n + 2 == self->_cur && XML_AT(self, self->_cur - 2) == (char)63 && XML_AT(self, self->_cur - 1) == (char)62)) \
+  ENS((RV && GF >= XML_TEXT_OFF && GF < self->_cur - 2) ==> !(XML_AT(self, GF) == (char)63 && XML_AT(self, GF + 1) == (char)62))
+/* T1 the Doctype text is exactly the input range from the entry cursor up to the terminating '>' (slice containment), the cursor ends behind it;
+ * a failure consumes nothing */
+#define DOCTYPE_SLICE ENS(RV ==> (self->_cur >= OC + 1 && XML_SLICE_IS(self, TOK.text, OC, self->_cur - OC - 1) && XML_AT(self, self->_cur - 1) == (char)62 && TOK.name.n == 0)) \
+  ENS(!RV ==> self->_cur == OC)
 
 /* ---------------- readEndTag: BALANCE ---------------- */
 #define END_PRE XML_TAG_PRE(self)
